@@ -65,13 +65,21 @@ def opCmp2 : RM Res := do
         | .frame i _, x => inner i x
         | .shape i _, x => inner i x
         | .opw _, x => x
-      let badc := a.find? (fun s => !c.compliant (inner k s))
+      -- the un-coupled vector is recomputed here (one multiply-add, rounded): next to a sliver arc that may land an
+      -- ulp outside, so with a parallelogram in the stack each joint may be accepted 1e-9 to either side
+      let nearOk := fun (x : J6 Float) =>
+        (List.zip x.toList (List.zip c.centers.toList c.tolerances.toList)).all (fun (v, (ce, tol)) =>
+          let e := 1e-9 * (1.0 + v.abs)
+          insideBounds v ce tol || insideBounds (v + e) ce tol || insideBounds (v - e) ce tol)
+      let okc := fun (s : J6 Float) => if hasPara k then nearOk (inner k s) else c.compliant (inner k s)
+      let surely := fun (s : J6 Float) => if hasPara k then robustCompliant c (inner k s) else c.compliant (inner k s)
+      let badc := a.find? (fun s => !okc s)
       preds := preds ++ [("C08.compliant", badc.isNone, match badc with
         | some s => s!"non-compliant answer {showJ6 s}"
         | none => "")]
       -- sentinel previous changes the reference vector between the two runs: superset only otherwise
       if !(prev.j1.isNaN && (entry == 1 || entry == 3)) then
-        let lost := b.find? (fun s => c.compliant (inner k s) && !(a.any (fun t => equivJ6 1e-9 s t)))
+        let lost := b.find? (fun s => surely s && !(a.any (fun t => equivJ6 1e-9 s t)))
         preds := preds ++ [("C08.superset", lost.isNone, match lost with
           | some s => s!"compliant solution {showJ6 s} of the unconstrained query is not returned with limits"
           | none => "")]
